@@ -385,6 +385,8 @@ def wait_loops(fn, purity):
         if cycles is None:
             continue  # too many paths: not classified (listed as such in the evidence by the caller)
         for cyc in cycles:
+            if _short_circuit_infeasible(fn, cyc):
+                continue
             kinds = []
             has_load = any(loads.get(b) for b in cyc)
             # counters modified ALONG THIS CYCLE (an increment elsewhere in the component does not bound this cycle)
@@ -432,6 +434,32 @@ def wait_loops(fn, purity):
                 out.append({"blocks": sorted(cyc), "lines": (lines[0], lines[-1]) if lines else (0, 0), "conds": conds})
                 break
     return out
+
+
+def _short_circuit_infeasible(fn, cyc):
+    """the CFG joins the operands of `a && b` / `a || b` in a block that branches on the whole expression; a path that reaches the join directly from
+    `a` (short circuit: a was false for &&, true for ||) can only leave it on the matching side"""
+    for i_, b in enumerate(cyc):
+        blk = fn.blocks[b]
+        if "cond" not in blk or len(blk["succ"]) != 2:
+            continue
+        cn = fn.nodes[blk["cond"]]
+        if cn["k"] != "bin" or cn.get("op") not in ("&&", "||"):
+            continue
+        p = cyc[i_ - 1]
+        pb = fn.blocks[p]
+        if "cond" not in pb or len(pb["succ"]) != 2 or pb["succ"][0] == pb["succ"][1]:
+            continue
+        left = fn.kids(blk["cond"])[0] if fn.kids(blk["cond"]) else None
+        if left is None or not (pb["cond"] == left or pb["cond"] in fn.subtree(left) or left in fn.subtree(pb["cond"])):
+            continue
+        took_true = pb["succ"][0] == b
+        nxt = cyc[(i_ + 1) % len(cyc)]
+        if cn["op"] == "&&" and not took_true and nxt != blk["succ"][1]:
+            return True
+        if cn["op"] == "||" and took_true and nxt != blk["succ"][0]:
+            return True
+    return False
 
 
 def _simple_cycles(fn, comp, limit=400):
